@@ -91,6 +91,13 @@ CORPUS = {
 (and a a a a a a a a a a)
 (check-sat)
 ''',
+    'quoted': '''(declare-const |q v| (_ BitVec 8))
+(declare-const |s t| String)
+(declare-fun |f g| () (_ BitVec 4))
+(assert (str.contains |s t| "a"))
+(assert (= |q v| ((_ zero_extend 4) |f g|)))
+(assert (exists ((|b c| Int)) (> |b c| 0)))
+''',
     'names': '''(declare-const x1__fresh Int)
 (declare-const _v (_ BitVec 4))
 (declare-const v (_ BitVec 8))
